@@ -143,8 +143,10 @@ Theorem C16_source_aggregation_and_steps :
   g_compared_fields = aggregation_fields /\ g_pipeline = pipeline_steps.
 Proof. split; [exact gen_compared_fields | exact gen_pipeline]. Qed.
 Print Assumptions C16_source_aggregation_and_steps.
-(* no route memo across requests, no store into the process-wide simulation parameters, one result per request *)
-Theorem C16_source_isolation : g_route_memo = false /\ g_writes_sim_params = false /\ g_results_per_request = 1.
+(* no route memo across requests, no store into the process-wide simulation parameters, one result per request, explicit
+   routes built in a new list (the OMS objects of the network are only read) *)
+Theorem C16_source_isolation : g_route_memo = false /\ g_writes_sim_params = false /\ g_results_per_request = 1 /\
+  g_explicit_path_new_list = true.
 Proof. exact gen_isolation. Qed.
 Print Assumptions C16_source_isolation.
 (* the selections are not vacuous: with another answer of the source the model's results do depend on what ran before *)
